@@ -177,6 +177,25 @@ def cfi_c3(twist):
     return out
 
 
+def perm_graph(rng, n, p=P):
+    pi = list(range(n))
+    rng.shuffle(pi)
+    return [[i, p, pi[i]] for i in range(n)]
+
+
+def rand_regular(rng, n, d):
+    out = []
+    for _ in range(d):
+        pi = list(range(n))
+        rng.shuffle(pi)
+        for i in range(n):
+            if i != pi[i]:
+                for t in und(i, pi[i]):
+                    if t not in out:
+                        out.append(t)
+    return out
+
+
 def k4():
     return [e for i in range(4) for j in range(i + 1, 4) for e in und(i, j)]
 
@@ -231,6 +250,12 @@ FAMILIES = {
     "orbits": lambda r: disjoint(*[cycle(n) for n in r.sample([1, 2, 3, 4, 5], r.choice([3, 3, 4]))]),
     "orbits-regular": lambda r: disjoint(*r.sample([k4(), prism(3), kmn(3, 3, True), cycle(3, True), cycle(4, True)],
                                                    r.choice([2, 2, 3]))),
+    # every node has in/out-degree 1 per predicate: refinement alone separates nothing, one individualisation makes
+    # the colouring discrete after a single round (the colour hashes then say little about the structure)
+    "perm": lambda r: perm_graph(r, r.randint(4, 9)),
+    "perm2": lambda r: (lambda n: perm_graph(r, n, P) + perm_graph(r, n, Q))(r.randint(4, 7)),
+    "perm2-uneven": lambda r: perm_graph(r, r.randint(4, 7), P) + perm_graph(r, r.randint(3, 6), Q),
+    "rand-regular": lambda r: rand_regular(r, r.randint(5, 9), r.choice([1, 2, 2])),
     "prism": lambda r: prism(r.choice([3, 3, 4, 4, 5])),
     "mobius": lambda r: mobius(r.choice([3, 4, 4, 5])),
     "petersen": lambda r: petersen(),
@@ -240,7 +265,8 @@ FAMILIES = {
     "sparse": random_sparse,
     "ground": lambda r: [[r.choice(GROUND[:3]), r.choice([P, Q]), r.choice(GROUND)] for _ in range(r.randint(0, 4))],
 }
-FAM_WEIGHTS = [("cycle", 12), ("cycle-big", 3), ("kmn", 9), ("copies", 10), ("mixed-cycles", 10), ("orbits", 9), ("orbits-regular", 3), ("prism", 7), ("mobius", 6),
+FAM_WEIGHTS = [("cycle", 12), ("cycle-big", 3), ("kmn", 9), ("copies", 10), ("mixed-cycles", 10), ("orbits", 9), ("orbits-regular", 3), ("perm", 6), ("perm2", 14), ("perm2-uneven", 4),
+               ("rand-regular", 6), ("prism", 7), ("mobius", 6),
                ("petersen", 3), ("cfi", 4), ("lists", 6), ("stars", 7), ("sparse", 18), ("ground", 3)]
 TWINS = [
     ("c6|2c3", lambda: cycle(6, True), lambda: disjoint(cycle(3, True), cycle(3, True))),
@@ -957,4 +983,17 @@ def _m_traces(case, result):
     return bool(prof) and prof[0] >= 6
 
 
-MATCHERS = {"genid_iri_in_input": _m_genid, "langtag_case": _m_langtag, "traces_unverified_generator": _m_traces}
+def _m_traces_leaves(case, result):
+    """(fixed, C14-F3) relabelled copies of a graph in which one individualisation already makes the colouring discrete
+    (all blank nodes in one class, at most one out- and in-edge per predicate) get different digests"""
+    if case.get("kind") not in ("multi", "pair") or not result["viol"]:
+        return False
+    if any(v.split(":")[0] not in ("false-negative", "canon-differs") for v in result["viol"]):
+        return False
+    g = case["gs"][0] if case["kind"] == "multi" else case["g1"]
+    prof = profile(g)
+    return len(prof) == 1 and prof[0] >= 5
+
+
+MATCHERS = {"genid_iri_in_input": _m_genid, "langtag_case": _m_langtag, "traces_unverified_generator": _m_traces,
+            "traces_equal_trace_leaves": _m_traces_leaves}
